@@ -955,7 +955,7 @@ class ParsedBindingKey(typing.NamedTuple):
   def scope_selector_arg(self):
     return self.scope, self.complete_selector, self.arg_name
 
-  def __equal__(self, other):
+  def __eq__(self, other):
     # Equality ignores the `given_selector` field, since two binding keys should
     # be equal whenever they identify the same parameter.
     return self.scope_selector_arg == other.scope_selector_arg
